@@ -147,6 +147,12 @@ Theorem C04_gen_generic_fold_status : forall (tz : tzobj) (UO DST : Z -> bool ->
 Proof. exact gen_generic_fold_status_lemma. Qed.
 Print Assumptions C04_gen_generic_fold_status.
 
+Theorem C04_gen_generic_is_ambiguous : forall (tz : tzobj) (UO : Z -> bool -> Z),
+  (forall dt, tz_utcoffset tz dt = Ok (UO (fst dt) (snd dt))) ->
+  forall dt, gen_generic_is_ambiguous tz dt = Ok (g_is_ambiguous UO (fst dt)).
+Proof. exact gen_generic_is_ambiguous_lemma. Qed.
+Print Assumptions C04_gen_generic_is_ambiguous.
+
 (* hand-modelled fragments (struct decoding and the derivation loops of _read_tzfile, one-line methods, glue)
    are unchanged since the hand model was validated against them *)
 From V Require Import tzfile.TzPinC04.
@@ -159,7 +165,6 @@ Theorem C04_pinned_fragments_unchanged :
   pinned_tz_tzoffset_utcoffset = true /\
   pinned_tz_tzoffset_dst = true /\
   pinned_tz_tzoffset_fromutc = true /\
-  pinned__common__tzinfo_is_ambiguous = true /\
   pinned__common__tzinfo__fold = true.
 Proof. exact pins_C04_lemma. Qed.
 Print Assumptions C04_pinned_fragments_unchanged.
